@@ -193,10 +193,11 @@ fn write4(e: &Ipv4Extensions, first: u8) -> String {
 }
 
 fn from_slice6(first: u8, b: &[u8]) -> String {
-    match Ipv6Extensions::from_slice(IpNumber(first), b) {
+    let r = Ipv6Extensions::from_slice(IpNumber(first), b);
+    let main = match &r {
         Ok((e, next, rest)) => format!(
             "ok({},next={},rest={},header_len={})",
-            show_exts(&e),
+            show_exts(e),
             next.0,
             win(b, rest),
             e.header_len()
@@ -204,11 +205,83 @@ fn from_slice6(first: u8, b: &[u8]) -> String {
         Err(err) => {
             use err::ipv6_exts::{HeaderError as H, HeaderSliceError as S};
             match err {
-                S::Len(l) => format!("err({})", show_len(&l)),
+                S::Len(l) => format!("err({})", show_len(l)),
                 S::Content(H::HopByHopNotAtStart) => "err(content(HopByHopNotAtStart))".to_string(),
                 S::Content(H::IpAuth(a)) => format!("err(content(IpAuth({:?})))", a),
             }
         }
+    };
+    // the sibling decoders of the same chain must give the same answer: the reader based `read` and
+    // `read_limited`, and `IpSlice::to_header` on an IPv6 packet that carries the chain
+    let canon = |e: &Ipv6Extensions, next: IpNumber, used: usize| {
+        format!("ok({},next={},used={})", show_exts(e), next.0, used)
+    };
+    let want = match &r {
+        Ok((e, next, rest)) => canon(e, *next, b.len() - rest.len()),
+        Err(err) => {
+            use err::ipv6_exts::{HeaderError as H, HeaderSliceError as S};
+            match err {
+                S::Len(_) => "err(short)".to_string(),
+                S::Content(H::HopByHopNotAtStart) => "err(content(HopByHopNotAtStart))".to_string(),
+                S::Content(H::IpAuth(a)) => format!("err(content(IpAuth({:?})))", a),
+            }
+        }
+    };
+    let mut diffs: Vec<String> = Vec::new();
+    {
+        use err::ipv6_exts::{HeaderError as H, HeaderReadError as R};
+        let mut c = std::io::Cursor::new(b);
+        let got = match Ipv6Extensions::read(&mut c, IpNumber(first)) {
+            Ok((e, next)) => canon(&e, next, c.position() as usize),
+            Err(R::Io(_)) => "err(short)".to_string(),
+            Err(R::Content(H::HopByHopNotAtStart)) => "err(content(HopByHopNotAtStart))".to_string(),
+            Err(R::Content(H::IpAuth(a))) => format!("err(content(IpAuth({:?})))", a),
+        };
+        if got != want {
+            diffs.push(format!("read={}", got));
+        }
+    }
+    {
+        use err::ipv6_exts::{HeaderError as H, HeaderLimitedReadError as R};
+        let mut c = etherparse::io::LimitedReader::new(
+            std::io::Cursor::new(b),
+            b.len(),
+            LenSource::Slice,
+            0,
+            err::Layer::Ipv6Header,
+        );
+        let got = match Ipv6Extensions::read_limited(&mut c, IpNumber(first)) {
+            Ok((e, next)) => {
+                let used = c.layer_offset() + c.read_len();
+                canon(&e, next, used)
+            }
+            Err(R::Io(_)) | Err(R::Len(_)) => "err(short)".to_string(),
+            Err(R::Content(H::HopByHopNotAtStart)) => "err(content(HopByHopNotAtStart))".to_string(),
+            Err(R::Content(H::IpAuth(a))) => format!("err(content(IpAuth({:?})))", a),
+        };
+        if got != want {
+            diffs.push(format!("read_limited={}", got));
+        }
+    }
+    if b.len() <= 0xffff {
+        let mut pkt = vec![0x60u8, 0, 0, 0];
+        pkt.extend_from_slice(&(b.len() as u16).to_be_bytes());
+        pkt.extend_from_slice(&[first, 64]);
+        pkt.extend_from_slice(&[0u8; 32]);
+        pkt.extend_from_slice(b);
+        // payload_length 0 means "rest of the slice"; with b empty that is the same thing
+        if let (Ok(ip), Ok((e, _, _))) = (IpSlice::from_slice(&pkt), &r) {
+            if let IpHeaders::Ipv6(_, e3) = ip.to_header() {
+                if show_exts(&e3) != show_exts(e) {
+                    diffs.push(format!("ip_slice_to_header={}", show_exts(&e3)));
+                }
+            }
+        }
+    }
+    if diffs.is_empty() {
+        main
+    } else {
+        format!("{}!decoders-differ({})", main, diffs.join(";"))
     }
 }
 
